@@ -17,6 +17,8 @@ EXPLANATION = (
     "the inbound receive; (R6) an Acknowledge on an established flow adds exactly its payload to the credit. "
     "The conjunction is the standard inductive argument for 'sent - acked <= window'; the induction itself is "
     "argued on paper, not mechanised.")
+EXPLANATION_ADDED = '(R7) after a successful credit take every success path of the caller builds a Push (no credit without a frame).'
+EXPLANATION = EXPLANATION + " Added while testing against seeded changes: " + EXPLANATION_ADDED
 ASSUMPTIONS = [
     "tokio mpsc channels are FIFO and bounded as documented; atomic RMW operations are atomic",
     "the two endpoints run the same code (conforming peer)",
